@@ -829,7 +829,7 @@ impl Stdfs {
     /// ```
     pub fn exists<T: AsRef<Path>>(path: T) -> bool {
         match Stdfs::abs(path) {
-            Ok(abs) => fs::metadata(abs).is_ok(),
+            Ok(abs) => fs::symlink_metadata(abs).is_ok(), // a link exists even if its target doesn't
             Err(_) => false,
         }
     }
